@@ -163,6 +163,28 @@ def text_variants(rng):
     return out
 
 
+def big_documents():
+    """(label, big document text, small twin text)"""
+    out = []
+    def deep(n, inner='x'):
+        return '<em>' * n + inner + '</em>' * n
+    for n in (600, 2500):
+        for tag, body in (('roStorySend', '<roID>r</roID><storyID>A</storyID><storyBody><p>%s</p></storyBody>'),
+                          ('roCreate', '<roID>r</roID><roSlug>s</roSlug><story><storyID>A</storyID><p>%s</p></story>'),
+                          ('roElementAction operation="MOVE"', '<roID>r</roID><element_target><storyID>A</storyID></element_target><element_source><storyID>B</storyID><x>%s</x></element_source>'),
+                          ('somethingElse', '<y>%s</y>')):
+            end = tag.split(' ')[0]
+            mk = lambda inner: f'<mos><mosID>m</mosID><messageID>7</messageID><{tag}>{body % inner}</{end}></mos>'
+            out.append((f'{end} with {n} nested elements', mk(deep(n)), mk('x')))
+    wide = ''.join(f'<story><storyID>S{k}</storyID><item><itemID>i{k}</itemID></item></story>' for k in range(3000))
+    out.append(('roStoryAppend with 3000 stories', f'<mos><messageID>7</messageID><roStoryAppend><roID>r</roID>{wide}</roStoryAppend></mos>',
+                '<mos><messageID>7</messageID><roStoryAppend><roID>r</roID></roStoryAppend></mos>'))
+    out.append(('roDelete after 3000 unknown siblings', '<mos>' + '<junk/>' * 3000 + '<roDelete><roID>r</roID></roDelete></mos>', '<mos><roDelete><roID>r</roID></roDelete></mos>'))
+    out.append(('5 MB of text before the message element', '<mos><mosID>' + 'x' * 5000000 + '</mosID><roReadyToAir><roID>r</roID></roReadyToAir></mos>',
+                '<mos><mosID>x</mosID><roReadyToAir><roID>r</roID></roReadyToAir></mos>'))
+    return out
+
+
 def expat_ok(text):
     p = expat.ParserCreate()
     try:
@@ -235,6 +257,20 @@ def run_c08(tier, seed):
                                    'spec': 'the class depends on the document alone, not on what was classified before', 'expected': spec, 'impl': got,
                                    'preceding': order[max(0, order.index(text) - 3):order.index(text)]})
     oc.count('reclassified-shuffled', 2 * len(order))
+    # size and depth are "other content": a very deep or very wide document is classified like its small twin
+    # (the documents are built as text - nothing here walks them recursively)
+    for lbl, big, twin in big_documents():
+        exp = classify_impl(twin, 'string', 'ignore')
+        got = {'string': classify_impl(big, 'string', 'ignore'), 'bytes': classify_impl(big.encode('utf-8'), 'string', 'error'),
+               'file': classify_impl(big, 'file', 'ignore')}
+        oc.evaluations += 1
+        oc.in_domain += 1
+        oc.count('big-documents')
+        if any(v != exp for v in got.values()) or 'err' in exp and exp['err'] not in ('UnknownMosFileType',):
+            oc.failing.append({'kind': 'classify', 'label': 'big document: ' + lbl, 'text': big if len(big) < 200000 else big[:2000] + '…', 'big': lbl,
+                               'spec': 'the class does not depend on other content: a very deep / very wide document is classified like its small twin',
+                               'expected': exp, 'impl': got})
+        oc.nontrivial.add(stable_hash(['big', lbl]))
     # encodings: the same document as bytes in other encodings, as a file, and as str
     enc_n = 0
     for enc, decl in (('iso-8859-1', '<?xml version="1.0" encoding="ISO-8859-1"?>'), ('utf-16', '<?xml version="1.0" encoding="UTF-16"?>'),
@@ -297,6 +333,17 @@ def replay(pid, fl):
         print(json.dumps({'impl': got, 'expected': fl['expected']}))
         bad = any(v != fl['expected'] for v in got.values())
     else:
+        if fl.get('big'):
+            bad = False
+            for lbl, big, twin in big_documents():
+                if lbl == fl['big']:
+                    exp = classify_impl(twin, 'string', 'ignore')
+                    bad = any(classify_impl(big, how, 'ignore') != exp for how in ('string', 'file'))
+            if bad:
+                print(f'VIOLATION property={pid} replay=(this file): still fails on the current tree')
+                return 1
+            print(f'{pid}: the recorded input no longer fails on the current tree')
+            return 0
         text = fl['text']
         for prev in fl.get('preceding', []):
             classify_impl(prev, 'string', 'ignore')
